@@ -57,7 +57,7 @@ class Impl:
         self.sm = None
 
     # -- running one operation --------------------------------------------------
-    def _run(self, fn):
+    def _run(self, fn, discard=False):
         env = self.env
         env.top = []
         env.stack = []
@@ -80,7 +80,7 @@ class Impl:
             return Outcome("exc", e, self._obs())
         finally:
             CUR.env = None
-        return Outcome("ok", r, self._obs())
+        return Outcome("ok", None if discard else r, self._obs())
 
     def _obs(self):
         return self.env.flat if self.cfg.engine == "async" else self.env.top
@@ -106,7 +106,7 @@ class Impl:
         return self._run(fn)
 
     def activate(self):
-        return self._run(lambda: self.sm.activate_initial_state())
+        return self._run(lambda: self.sm.activate_initial_state(), discard=True)
 
     def send(self, ev, vals=None, tag=None, args=(), kw=None, style="send"):
         if vals is not None:
